@@ -60,7 +60,67 @@ fn c12_reference_config(subject: &Config) -> Config {
   }
 }
 
+/// Thorough tier: for one small chain per batch, EVERY partition of its blocks
+/// into update calls x every commit interval 1..n x {never reopen, reopen
+/// between all calls}.
+fn gen_c12_enumerated(seed: u64) -> Option<Scenario> {
+  let index = seed & 0xffff_ffff;
+  let base = seed >> 32;
+  if index >= 20_000 {
+    return None;
+  }
+  let root = Rng::new(base.wrapping_mul(0x9e37_79b9).wrapping_add(1212));
+  let mut crng = root.fork("config");
+  let mut wrng = root.fork("workload");
+  let mut config = gen_config(&mut crng);
+  config.index_sats = crng.chance(2, 3);
+  config.index_addresses = crng.chance(1, 2);
+  config.index_runes = crng.chance(2, 3);
+  // forced commits at savepoints would blur the commit interval
+  config.integration_test = true;
+  let f = Features::swarm(&everything_features(), &mut wrng);
+  let n = 5 + wrng.usize(3);
+  let blocks = gen_chain(&mut wrng, &f, n);
+  let partitions = 1u64 << (n - 1);
+  let total = partitions * n as u64 * 2;
+  if index >= total {
+    return None;
+  }
+  let reopen = index % 2 == 1;
+  let interval = 1 + (index / 2) % n as u64;
+  let cuts = index / 2 / n as u64; // bit i set = a new update call starts after block i
+  config.commit_interval = interval as u32;
+  let lag = *Rng::new(seed).fork("lag").pick(&[0u32, 1, 2, 7, 31]);
+  let mut ops = Vec::new();
+  let mut part: Vec<BlockSpec> = Vec::new();
+  for (i, b) in blocks.into_iter().enumerate() {
+    part.push(b);
+    if i + 1 == n || cuts & (1 << i) != 0 {
+      ops.push(Op::Mine(std::mem::take(&mut part)));
+      ops.push(Op::Update(UpdateSpec {
+        lag,
+        ..Default::default()
+      }));
+      if reopen && i + 1 != n {
+        ops.push(Op::Reopen);
+      }
+    }
+  }
+  Some(Scenario {
+    seed,
+    profile: format!("C12/enumerated total={total} index={index}"),
+    config,
+    ops,
+    server: None,
+  })
+}
+
 pub fn gen_c12(seed: u64, thorough: bool) -> Scenario {
+  if thorough
+    && let Some(sc) = gen_c12_enumerated(seed)
+  {
+    return sc;
+  }
   let root = Rng::new(seed);
   let mut crng = root.fork("config");
   let mut wrng = root.fork("workload");
